@@ -1,6 +1,8 @@
 package drpcconn
 
 import (
+	"context"
+
 	"storj.io/drpc/drpcmanager"
 	"storj.io/drpc/drpcwire"
 	vrt "storj.io/drpc/internal/verifrt"
@@ -186,4 +188,38 @@ func VerifH_SendOnFailedTransport() {
 	vrt.Assert(got >= okSent, "every send that reported success is completely on the transport")
 	vrt.Cover("send-fault-end")
 	conn.Close()
+}
+
+// VerifH_CloseRacesInvoke: Conn.Close is issued concurrently with a unary call whose response
+// is already on the wire (and, symbolically, with the cancellation of that call's context).
+// Everything returns, the transport is closed exactly once, a call that succeeds has its own
+// response, nothing is left behind, later calls fail.
+func VerifH_CloseRacesInvoke() {
+	tr := &hx.Transport{}
+	conn := NewWithOptions(tr, Options{Manager: drpcmanager.Options{SoftCancel: vrt.Bool("soft")}})
+	enc := hx.ByteEnc{}
+	tr.Feed(hx.Pkt(drpcwire.KindMessage, 1, 1, false, []byte{0x41}))
+	tr.Feed(hx.Pkt(drpcwire.KindCloseSend, 1, 2, false, nil))
+	ctx := hx.NewCtx()
+	var err error
+	var out []byte
+	idone, cdone := false, false
+	go func() { in := []byte{1}; err = conn.Invoke(ctx, "a", enc, &in, &out); idone = true }()
+	go func() { _ = conn.Close(); cdone = true }()
+	if vrt.Bool("alsoCancel") {
+		go func() { ctx.Cancel(context.Canceled) }()
+	}
+	vrt.Quiesce()
+	vrt.Assert(idone && cdone, "the call and Close both return")
+	if err == nil {
+		vrt.Assert(len(out) == 1 && out[0] == 0x41, "a call that succeeds has its own response")
+		vrt.Cover("close-races-invoke-ok")
+	}
+	vrt.Assert(tr.Closes == 1, "the transport is closed exactly once")
+	vrt.Assert(hx.IsClosedCh(conn.Closed()), "the connection reports itself closed")
+	in2 := []byte{2}
+	var out2 []byte
+	vrt.Assert(conn.Invoke(hx.NewCtx(), "b", enc, &in2, &out2) != nil, "later calls fail")
+	vrt.Assert(vrt.Unfinished() == 0, "no goroutine is left behind")
+	vrt.Cover("close-races-invoke-end")
 }
